@@ -661,6 +661,7 @@ func capturedHevc(repo string) []caseLine {
 	sort.Strings(files)
 	seen := map[string]bool{}
 	var spss, ppss []string
+	var slices []caseLine
 	for _, path := range files {
 		data, err := os.ReadFile(path)
 		if err != nil {
@@ -673,12 +674,19 @@ func capturedHevc(repo string) []caseLine {
 		default:
 			nalus = scanHvcC(data)
 		}
+		var fileSps, filePps []string
 		for _, n := range nalus {
 			if len(n) < 3 {
 				continue
 			}
 			t := (n[0] >> 1) & 0x3f
 			h := hx.Hex(n)
+			switch t {
+			case 33:
+				fileSps = append(fileSps, h)
+			case 34:
+				filePps = append(filePps, h)
+			}
 			if seen[h] {
 				continue
 			}
@@ -688,6 +696,15 @@ func capturedHevc(repo string) []caseLine {
 				spss = append(spss, h)
 			case 34:
 				ppss = append(ppss, h)
+			default:
+				// slice segments of elementary streams, with the parameter sets of the same file
+				if (t <= 9 || (t >= 16 && t <= 21)) && len(fileSps) > 0 && len(filePps) > 0 && len(slices) < 40 {
+					if len(n) > 64 {
+						n = n[:64]
+					}
+					slices = append(slices, caseLine{"HSLICE", "", strings.Join(fileSps, ",") + ";" + strings.Join(filePps, ","),
+						hx.Hex(n), "0", "-"})
+				}
 			}
 		}
 	}
@@ -703,6 +720,11 @@ func capturedHevc(repo string) []caseLine {
 	}
 	for _, h := range ppss {
 		cs = append(cs, caseLine{"HPPS", fmt.Sprintf("ch%d", k), strings.Join(all, ","), h, "0", "-"})
+		k++
+	}
+	for _, c := range slices {
+		c.id = fmt.Sprintf("ch%d", k)
+		cs = append(cs, c)
 		k++
 	}
 	return cs
